@@ -1,6 +1,7 @@
 package main
 
 import (
+	"os"
 	"fmt"
 	"go/constant"
 	"go/types"
@@ -91,6 +92,7 @@ type Env struct {
 	nq    *int
 	this  *SV
 	inOld bool            // evaluating under old(...): parameters denote their entry values
+	loopEntry *State // loop invariants: the state in which the loop was entered (for entry(...))
 	retFrame *Frame // postconditions on the body: the frame at the return statement (for final(x))
 	bound map[string]bool // names bound by quantifiers / pure-function parameters: never resolved as program variables
 }
@@ -383,6 +385,10 @@ func (env *Env) evalIdent(name string) SV {
 	// inside invariants / call-site requirements, a reassigned parameter denotes its current value
 	if env.frame != nil && !env.inOld && !vc.eng.cellBacked(env.frame.fn, name) {
 		if bv, ok := vc.boundValue(env.frame, env.loop, name); ok {
+			if os.Getenv("VERIF_DEBUG_NAMES") == name {
+				_, have := env.frame.regs[bv]
+				fmt.Fprintf(os.Stderr, "name %s -> %s (%T) have=%v\n", name, bv, bv, have)
+			}
 			if rv, have := env.frame.regs[bv]; have {
 				return SV{vc.term(env.st, rv, "spec"), bv.Type()}
 			}
@@ -417,6 +423,29 @@ func (env *Env) evalIdent(name string) SV {
 					return v
 				}
 				break
+			}
+		}
+		// a helper inlined into the function under contract: its invariants may name variables of the functions it is
+		// being executed on behalf of (the callers on the stack, innermost first)
+		if env.st != nil && len(env.st.frames) > 1 && env.frame != env.st.frames[0] {
+			for i := len(env.st.frames) - 1; i >= 0; i-- {
+				pf := env.st.frames[i]
+				if pf == env.frame {
+					continue
+				}
+				for _, p := range pf.fn.Params {
+					if p.Name() == name {
+						if rv, ok := pf.regs[p]; ok {
+							return SV{vc.term(env.st, rv, name), p.Type()}
+						}
+					}
+				}
+				e2 := *env
+				e2.frame = pf
+				e2.loop = nil
+				if v, ok := vc.localByName(&e2, name); ok {
+					return v
+				}
 			}
 		}
 	}
@@ -1013,6 +1042,8 @@ func (env *Env) evalCall(x *ECall) SV {
 		// itvisited(it, key): the database iterator it has moved past key since its last Seek
 		T := vc.eng.st
 		return SV{Select(Select(vc.kvitVis(env.st), arg(0).V, T.ArrayOf(sortStr, sortBool)), arg(1).V, sortBool), types.Typ[types.Bool]}
+	case "itsum":
+		return SV{Select(vc.kvitSum(env.st), arg(0).V, sortInt), ti}
 	case "itcur":
 		return SV{Select(vc.kvitCur(env.st), arg(0).V, sortStr), types.Typ[types.String]}
 	case "kvunchanged", "kvallsame":
@@ -1066,6 +1097,15 @@ func (env *Env) evalCall(x *ECall) SV {
 		vc.declareFun(key, []*Sort{sortInt}, sortBool)
 		a := arg(0).V
 		return SV{And(Not(Eq(ifaceTag(a), IntLit(0))), App(sortBool, key, ifaceTag(a))), types.Typ[types.Bool]}
+	case "entry":
+		// entry(e): e evaluated over the heap and ghost state in which the loop was entered (loop-carried locals keep
+		// their current values: use it for state reached through pointers, fields and ghosts)
+		if env.loopEntry == nil {
+			specFail("entry(...) is only available in loop invariants")
+		}
+		e2 := *env
+		e2.st = env.loopEntry
+		return e2.eval(x.Args[0])
 	case "final":
 		// final(x): the value the function's local variable x holds where it returns (its zero value on paths that
 		// never assigned it). Only meaningful in postconditions, which are then checked on the body only.
@@ -1391,11 +1431,9 @@ func (vc *VC) strCat(st *State, a, b *Term) *Term {
 		return a
 	}
 	c := App(sortStr, "strcat", a, b)
-	if st != nil {
-		st.assume(Eq(App(sortInt, "strlen", c), Bin(sortInt, "+", App(sortInt, "strlen", a), App(sortInt, "strlen", b))))
-		st.assume(App(sortBool, "strprefix", a, c))
-		st.assume(Eq(App(sortStr, "strsub", c, App(sortInt, "strlen", a), App(sortInt, "strlen", c)), b))
-	}
+	// length, prefix and suffix of a concatenation: stated once for all arguments (the operands may be bound variables
+	// of a specification)
+	vc.axiom("(forall ((a Str) (b Str)) (! (and (= (strlen (strcat a b)) (+ (strlen a) (strlen b))) (strprefix a (strcat a b)) (= (strsub (strcat a b) (strlen a) (strlen (strcat a b))) b)) :pattern ((strcat a b))))")
 	return c
 }
 
